@@ -328,6 +328,44 @@ def body_centroids(env):
                   all(rad[k + 1] > rad[k] for k in range(len(rad) - 1)), key='centroids_disagree_with_adjacency')
 
 
+def _flat(x, out, pre=''):
+    if isinstance(x, dict):
+        for k in sorted(x, key=str):
+            _flat(x[k], out, pre + '/' + str(k))
+    elif isinstance(x, (list, tuple)) and x and not np.isscalar(x[0]):
+        for i, v in enumerate(x):
+            _flat(v, out, pre + '/%d' % i)
+    else:
+        try:
+            out[pre] = np.asarray(x, dtype=float)
+        except (TypeError, ValueError):
+            pass
+
+
+def body_ftf_order(env):
+    """The duct flat-to-flat list is an unordered set of wall faces for the reader (check_duct accepts any order and says the
+    region set-up sorts it): the bundle the real constructor builds from a permuted list is the bundle it builds from the
+    ascending list -- wall pairs, derived lengths, cell areas, hydraulic diameters, centroids.  Enumeration, no symbolic
+    dimension; the identities themselves are proved on the ascending list by the geometry instances."""
+    n, nduct, order = env.params['n_ring'], env.params['n_duct'], env.params['order']
+    d = fixtures.bundle_dims(n, nduct)
+    base = fixtures.make_rodded(n, nduct, byp_ff=0.05 if nduct > 1 else None, dims=d)
+    perm = fixtures.make_rodded(n, nduct, byp_ff=0.05 if nduct > 1 else None, dims=dict(d, ftf=[d['ftf'][i] for i in order]))
+    for nm in ('duct_ftf', 'd', 'params', 'bundle_params', 'bypass_params', 'duct_params', 'L', 'ht'):
+        if not hasattr(base, nm):
+            continue
+        a, b = {}, {}
+        _flat(getattr(base, nm), a)
+        _flat(getattr(perm, nm), b)
+        same = set(a) == set(b) and all(np.shape(a[k]) == np.shape(b[k]) and np.allclose(a[k], b[k], rtol=1e-12, atol=0, equal_nan=True)
+                                        for k in a)
+        env.holds('%s of the bundle does not depend on the order in which the wall faces are listed' % nm, bool(same),
+                  key='geometry_depends_on_ftf_list_order')
+    env.holds('centroids do not depend on the order in which the wall faces are listed',
+              bool(np.allclose(np.asarray(base.subchannel.xy, dtype=float), np.asarray(perm.subchannel.xy, dtype=float), rtol=1e-12, atol=1e-15)),
+              key='geometry_depends_on_ftf_list_order')
+
+
 def instances(tier):
     inst = []
     rings = (2, 3, 4, 7) if tier == 'quick' else tuple(range(2, 21))
@@ -351,6 +389,10 @@ def instances(tier):
         for nduct in (1, 2, 3):
             inst.append(dict(label='centroids[rings=%d,ducts=%d]' % (n, nduct), body=body_centroids, params={'n_ring': n, 'n_duct': nduct},
                              check_vacuity=False))
+    for n in (2, 3):
+        for nduct, order in ((1, (1, 0)), (2, (2, 3, 0, 1)), (2, (3, 2, 1, 0)), (2, (0, 2, 1, 3)), (3, (4, 5, 2, 3, 0, 1)), (3, (5, 0, 3, 2, 1, 4))):
+            inst.append(dict(label='ftf-order[rings=%d,ducts=%d,list order %s]' % (n, nduct, ''.join(map(str, order))), body=body_ftf_order,
+                             params={'n_ring': n, 'n_duct': nduct, 'order': order}, check_vacuity=False))
     for n in (2, 5):
         inst.append(dict(label='heat-fractions[rings=%d]' % n, body=body_q_p2sc, params={'n_ring': n}, check_vacuity=False))
     return inst
